@@ -27,6 +27,30 @@ Proof.
     destruct (nat_expr RtoL fns n genv en a o1) as [va o2| | | |]; reflexivity.
 Qed.
 
+(* the binary string builtins and str_substring are C calls with two / three arguments *)
+Lemma nat_expr_str2_eq ord fns n genv en o a b out :
+  nat_expr ord fns (S n) genv en (EStr2 o a b) out =
+  nbind (sel_args ord (nat_expr ord fns n genv en) [a; b] out) (str2_tail o).
+Proof.
+  destruct ord; cbn [nat_expr sel_args args_lr args_rl nbind].
+  - destruct (nat_expr LtoR fns n genv en a out) as [va o1| | | |]; cbn [nbind]; try reflexivity.
+    destruct (nat_expr LtoR fns n genv en b o1) as [vb o2| | | |]; reflexivity.
+  - destruct (nat_expr RtoL fns n genv en b out) as [vb o1| | | |]; cbn [nbind]; try reflexivity.
+    destruct (nat_expr RtoL fns n genv en a o1) as [va o2| | | |]; reflexivity.
+Qed.
+Lemma nat_expr_substr_eq ord fns n genv en a b c out :
+  nat_expr ord fns (S n) genv en (ESubstr a b c) out =
+  nbind (sel_args ord (nat_expr ord fns n genv en) [a; b; c] out) substr_tail.
+Proof.
+  destruct ord; cbn [nat_expr sel_args args_lr args_rl nbind].
+  - destruct (nat_expr LtoR fns n genv en a out) as [va o1| | | |]; cbn [nbind]; try reflexivity.
+    destruct (nat_expr LtoR fns n genv en b o1) as [vb o2| | | |]; cbn [nbind]; try reflexivity.
+    destruct (nat_expr LtoR fns n genv en c o2) as [vc o3| | | |]; reflexivity.
+  - destruct (nat_expr RtoL fns n genv en c out) as [vc o1| | | |]; cbn [nbind]; try reflexivity.
+    destruct (nat_expr RtoL fns n genv en b o1) as [vb o2| | | |]; cbn [nbind]; try reflexivity.
+    destruct (nat_expr RtoL fns n genv en a o2) as [va o3| | | |]; reflexivity.
+Qed.
+
 Lemma run_nat_eq ord fuel p :
   run_nat ord fuel p = if cc_refuses p then NCcFailO else nat_finish (nat_whole ord fuel p).
 Proof.
@@ -104,6 +128,9 @@ Proof.
       * rewrite !nat_expr_arr_eq. ubind; [apply sel_args_upto; intros; apply He|apply upto_refl].
       * rewrite !nat_expr_at_eq. ubind; [apply sel_args_upto; intros; apply He|apply upto_refl].
       * cbn [nat_expr]. ubind; [apply He|apply upto_refl].
+      * cbn [nat_expr]. ubind; [apply He|apply upto_refl].
+      * rewrite !nat_expr_str2_eq. ubind; [apply sel_args_upto; intros; apply He|apply upto_refl].
+      * rewrite !nat_expr_substr_eq. ubind; [apply sel_args_upto; intros; apply He|apply upto_refl].
     + red; intros m genv en s out Hle. destruct m as [|m]; [lia|]. assert (Hnm : n <= m) by lia.
       pose proof (fun genv en e out => IHe m genv en e out Hnm) as He.
       pose proof (fun genv en s out => IHs m genv en s out Hnm) as Hs.
@@ -206,6 +233,11 @@ Proof.
   induction es as [|b r IH]; intros H; [destruct H|]. destruct H as [->|H]; [lia|]. specialize (IH H). lia.
 Qed.
 
+Lemma str1_nofault o v f : nat_str1 o v <> NOF f.
+Proof. destruct o, v; discriminate. Qed.
+Lemma str2_quiet_nofault o a b f : match o with SEquals | SContains => True | _ => False end -> nat_str2 o a b <> NOF f.
+Proof. destruct o; try contradiction; intros _; destruct a, b; discriminate. Qed.
+
 Section Quiet.
 Variable fns : list fn.
 Variables genv en : nenv.
@@ -215,7 +247,8 @@ Variables genv en : nenv.
 Lemma quiet_exact ord e : quiet e = true -> forall fuel out, qdepth e < fuel ->
   nat_expr ord fns fuel genv en e out = qres (qeval genv en e) out.
 Proof.
-  induction e as [z|b|s|x|o a IHa|o a b IHa IHb|f args _|c a b IHc IHa IHb|es IHes|a i _ _|a IHa] using expr_ind3;
+  induction e as [z|b|s|x|o a IHa|o a b IHa IHb|f args _|c a b IHc IHa IHb|es IHes|a i _ _|a IHa
+                  |so a IHa|so a b IHa IHb|a b c _ _ _] using expr_ind3;
     intros Q fuel out Hd; (destruct fuel as [|n]; [lia|]); cbn [quiet qdepth] in Q, Hd.
   - reflexivity.
   - reflexivity.
@@ -253,6 +286,26 @@ Proof.
   - discriminate Q.
   - cbn [nat_expr qeval]. rewrite IHa by (auto; lia). destruct (qeval genv en a) as [v|]; [|reflexivity].
     cbn [qres nbind obind]. destruct v; reflexivity.
+  - (* str_length, int_to_string *)
+    cbn [nat_expr qeval]. rewrite IHa by (auto; lia). destruct (qeval genv en a) as [v|]; [|reflexivity].
+    cbn [qres nbind obind]. apply nopres_agree. intros f; apply str1_nofault.
+  - (* str_equals, str_contains of quiet operands: a two-argument call *)
+    assert (Hso : match so with SEquals | SContains => True | _ => False end) by (destruct so; try discriminate Q; exact I).
+    assert (Qab : quiet a = true /\ quiet b = true) by (destruct so; try discriminate Q; apply andb_prop in Q; exact Q).
+    destruct Qab as [Qa Qb].
+    rewrite nat_expr_str2_eq.
+    assert (Hel : forall e0, In e0 [a; b] -> forall o, nat_expr ord fns n genv en e0 o = qres (qeval genv en e0) o).
+    { intros e0 [<-|[<-|[]]] o; [apply IHa|apply IHb]; auto; lia. }
+    assert (E : sel_args ord (nat_expr ord fns n genv en) [a; b] out = qres (qargs (qeval genv en) [a; b]) out).
+    { destruct ord; cbn [sel_args]; [apply args_lr_exact|apply args_rl_exact]; exact Hel. }
+    rewrite E. cbn [qargs]. 
+    assert (Eq : qeval genv en (EStr2 so a b) =
+                 obind (qeval genv en a) (fun va => obind (qeval genv en b) (fun vb => nopres_q (nat_str2 so va vb))))
+      by (destruct so; try contradiction; reflexivity).
+    rewrite Eq. destruct (qeval genv en a) as [va|]; [|reflexivity]. cbn [obind].
+    destruct (qeval genv en b) as [vb|]; [|reflexivity]. cbn [obind qres nbind str2_tail].
+    apply nopres_agree. intros f; apply str2_quiet_nofault; exact Hso.
+  - discriminate Q.
 Qed.
 
 (* (b) of the plan: for ANY fuel a quiet expression gives NNoFuel, or NStuck, or NOk v out with v independent of
@@ -486,6 +539,22 @@ Proof.
   - intros b [<-|[<-|[]]]; assumption.
 Qed.
 
+Lemma se_str2 o a b : se_expr (EStr2 o a b) = true ->
+  loud_count [a; b] <= 1 /\ forall e, In e [a; b] -> se_expr e = true.
+Proof.
+  cbn [se_expr]. intros H. apply andb_prop in H. destruct H as [H H3]. apply andb_prop in H. destruct H as [H1 H2]. split.
+  - apply Nat.leb_le; exact H1.
+  - intros e [<-|[<-|[]]]; assumption.
+Qed.
+Lemma se_substr a b c : se_expr (ESubstr a b c) = true ->
+  loud_count [a; b; c] <= 1 /\ forall e, In e [a; b; c] -> se_expr e = true.
+Proof.
+  cbn [se_expr]. intros H. apply andb_prop in H. destruct H as [H H4]. apply andb_prop in H. destruct H as [H H3].
+  apply andb_prop in H. destruct H as [H1 H2]. split.
+  - apply Nat.leb_le; exact H1.
+  - intros e [<-|[<-|[<-|[]]]]; assumption.
+Qed.
+
 Section Order.
 Variable fns : list fn.
 Variables o1 o2 : arg_order.
@@ -562,6 +631,11 @@ Proof.
       * rewrite nat_expr_at_eq. eapply sim_ext; [intros m; apply nat_expr_at_eq|].
         destruct (se_at e1 e2 Hse) as [Hlc Hall]. apply list_sim; assumption.
       * cbn [nat_expr]. sbind; [apply IHe; exact Hse|apply sim_const].
+      * cbn [nat_expr]. sbind; [apply IHe; exact Hse|apply sim_const].
+      * rewrite nat_expr_str2_eq. eapply sim_ext; [intros m; apply nat_expr_str2_eq|].
+        destruct (se_str2 o e1 e2 Hse) as [Hlc Hall]. apply list_sim; assumption.
+      * rewrite nat_expr_substr_eq. eapply sim_ext; [intros m; apply nat_expr_substr_eq|].
+        destruct (se_substr e1 e2 e3 Hse) as [Hlc Hall]. apply list_sim; assumption.
     + red; intros genv en s out Hse. apply sim_shift. destruct s; cbn [se_stmt] in Hse.
       * apply sim_const.
       * se_split Hse. cbn [nat_stmt]. sbind; [apply IHs; assumption|].
